@@ -964,6 +964,18 @@ func (h *histRun) checkCounters(c *WSClient, snap server.VerifConnSnap, now int6
 			if h.driftTag == nil {
 				h.driftTag = map[string]string{}
 			}
+			if h.hasNote("populate.loading", c.CID, rid) && !revived && !unsent {
+				// finding Y: the subscription was collected for a response while
+				// still loading (counted as sent, later reset by its Loaded)
+				sig += ".populateLoading"
+				h.driftTag[c.CID+" "+rid] = ".populateLoading"
+				if key := fmt.Sprintf("d %s %s %d %d %d %d", c.CID, rid, hs.Indirect, hs.IndirectSent, wantInd[rid], ws); !h.counterSeen[key] {
+					h.counterSeen[key] = true
+					h.viol(Viol{Prop: "C02", Conn: c.Idx, T: now, RID: rid, Sig: sig,
+						Msg: fmt.Sprintf("subscription %s counts indirect=%d indirectsent=%d but %d subscriptions refer to it, %d of them sent; all subs: %s", rid, hs.Indirect, hs.IndirectSent, wantInd[rid], wantSent[rid], subsSummary(snap))})
+				}
+				continue
+			}
 			if prev := h.driftTag[c.CID+" "+rid]; prev != "" && !revived && !unsent {
 				// the same counter was already off at an earlier quiescent
 				// point, for a known reason: the offset stays
@@ -1322,6 +1334,11 @@ func (h *histRun) checkQuiescent(final bool) {
 				// request was pending as still held - and with it everything that
 				// resource refers to
 				v.Sig += ".droppedWhilePending"
+			}
+			if v.Prop == "C02" && !strings.Contains(v.Sig, ".") && h.hasNote("populate.loading", c.CID, v.RID) {
+				// finding Y: referenced in a response that collected it while it
+				// was still loading, so without its data
+				v.Sig += ".populateLoading"
 			}
 			// a resource (or its holder) that was carried by an ignored stray event
 			// shares the cause of that stray event
